@@ -64,6 +64,10 @@ func (t *Track) RecordFrom(inPort drivers.In, ticks MetricTicks, bpm float64) (s
 	t.Add(0, MetaTempo(bpm))
 	var absmillisec int32
 	return midi.ListenTo(inPort, func(msg midi.Message, absms int32) {
+		// only channel messages belong into a track: realtime and system common messages are not valid in a file
+		if !msg.Is(midi.ChannelMsg) {
+			return
+		}
 		deltams := absms - absmillisec
 		absmillisec = absms
 		delta := ticks.Ticks(bpm, time.Duration(deltams)*time.Millisecond)
